@@ -542,6 +542,18 @@ def gen_cabi_tls_client(rng, thorough=False):
     return scs
 
 
+def gen_tcp_client_lifecycle():
+    """black-box C13: shutdown / handle drop / disable handed in while the plain TCP channel task (real sockets, real connect)
+    is held in each of its states"""
+    steps = []
+    for at, refuse, close in (("Disabled", False, 0), ("Connecting", False, 0), ("Connecting", True, 0), ("Connected", False, 0),
+                              ("WaitAfterFailedConnect", True, 0), ("WaitAfterDisconnect", False, 1)):
+        for cmd_ in ("shutdown", "drop", "disable"):
+            steps.append({"op": "lc", "src": at, "cmd": cmd_, "silent": refuse, "c": close})
+    sc = scenario(0, steps, variant="tcp_client", tag="c13-tcp-client-lifecycle-black-box")
+    return [sc]
+
+
 def gen_tls_client_stall():
     sc = scenario(0, [{"op": "tlsc", "silent": True}, {"op": "tlsc", "silent": True}], variant="tls_client", mode="ca", min_tls="1.2",
                   peer_cert="ca1", tag="tls-client-handshake-stall")
